@@ -50,7 +50,7 @@ func runC15(c *core.Ctx) {
 	if r.Chance(1, 2) {
 		n = r.Range(0, 40)
 	}
-	big := c.Index%25 == 7
+	big := c.Index%25 == 7 && c.Mode != "par"
 	if big {
 		n = r.Range(8192, 20000) | r.Intn(2) // odd and even lengths beyond 8192 and 16384
 		c.Count("inputs_beyond_8192_elements", 1)
@@ -63,6 +63,13 @@ func runC15(c *core.Ctx) {
 	keys := make([]int, n)
 	for i := range keys {
 		keys[i] = r.Intn(u) - u/2
+	}
+	// extreme values (negation and subtraction overflow on them) in 1 case out of 8
+	if n >= 2 && r.Chance(1, 8) {
+		for _, v := range []int{math.MinInt, math.MaxInt, math.MinInt + 1, -math.MaxInt}[:r.Range(1, 4)] {
+			keys[r.Intn(n)] = v
+		}
+		c.Count("inputs_with_extreme_values", 1)
 	}
 	shape := r.Intn(6)
 	if big {
@@ -471,6 +478,34 @@ func sortFuncVariants[E comparable](c *core.Ctx, keys []int, tname string, fail 
 		if v.stable {
 			c.Count("stable_tie_pairs_checked", int64(ties))
 		}
+	}
+	// ShuffleRand over this element type: a permutation, and a function of the generator
+	// alone - the same seed gives the same order, also on the second and third call
+	if tname != "16B" && n >= 2 {
+		var firstOrder []int
+		for rep := 0; rep < 3; rep++ {
+			s := mk()
+			slices.ShuffleRand(s, rand.New(rand.NewSource(int64(n)*7919+1)))
+			order := make([]int, n)
+			seen := make([]bool, n)
+			for i, e := range s {
+				_, idx := ki(e)
+				if idx < 0 || idx >= n || seen[idx] {
+					return fail("ShuffleRand:not-a-permutation"+sfx, "ShuffleRand result is not a permutation")
+				}
+				seen[idx] = true
+				order[i] = idx
+			}
+			if rep == 0 {
+				firstOrder = order
+			} else if !eqSlice(order, firstOrder) {
+				return fail("ShuffleRand:not-deterministic"+sfx, fmt.Sprintf("ShuffleRand with the same seed gave another order on call %d than on the first call", rep+1))
+			}
+			if e := s[:cap(s)]; len(e) != n+2 || !same(e[n], s1) || !same(e[n+1], s2) {
+				return fail("ShuffleRand:wrote-beyond-len"+sfx, "ShuffleRand touched the spare capacity of the slice")
+			}
+		}
+		c.Count("shuffles", 3)
 	}
 	return true
 }
